@@ -180,6 +180,18 @@ func c08Build(cs c08Case, uploadID string, metaLimit int) (rq *s3x.Req, verdict 
 		extra := 1 + cs.K%(len(rq.Body)+3)
 		rq.ContentLength = s3x.I64(int64(len(rq.Body) + extra))
 		verdict = mustReject
+	case "truncated-body":
+		// the declared length is that of the whole body, which stops 1 + K%len bytes early (for an
+		// aws-chunked upload that can be inside the framing after the last payload byte)
+		if len(rq.Body) == 0 {
+			rq.Body = []byte("abc")
+			if cs.Kind == "chunked" {
+				rq.Body = oracle.ChunkedEncode([]byte("abc"), nil)
+			}
+		}
+		rq.ContentLength = s3x.I64(int64(len(rq.Body)))
+		rq.Body = rq.Body[:len(rq.Body)-1-cs.K%len(rq.Body)]
+		verdict = mustReject
 	case "short-body-all":
 		rq.ContentLength = s3x.I64(int64(len(rq.Body)))
 		if len(rq.Body) == 0 {
@@ -317,11 +329,11 @@ func setHeader(rq *s3x.Req, k, v string) {
 }
 
 var c08Faults = map[string][]string{
-	"put": {"none", "md5-correct", "md5-wrong", "md5-badb64", "md5-15bytes", "md5-17bytes", "md5-empty", "md5-hex", "short-body", "short-body-all",
+	"put": {"none", "md5-correct", "md5-wrong", "md5-badb64", "md5-15bytes", "md5-17bytes", "md5-empty", "md5-hex", "short-body", "short-body-all", "truncated-body",
 		"reader-fails", "key-1023", "key-1024", "key-too-long", "key-long-segment", "meta-small", "meta-around", "meta-too-large", "meta-many-too-large", "no-content-length", "te-chunked"},
-	"chunked": {"none", "md5-correct", "md5-wrong", "md5-badb64", "short-body", "reader-fails", "decoded-len-larger", "decoded-len-smaller", "decoded-len-garbage",
+	"chunked": {"none", "md5-correct", "md5-wrong", "md5-badb64", "short-body", "truncated-body", "reader-fails", "decoded-len-larger", "decoded-len-smaller", "decoded-len-garbage",
 		"key-too-long", "meta-too-large"},
-	"part": {"none", "md5-correct", "md5-wrong", "md5-badb64", "md5-15bytes", "md5-17bytes", "md5-empty", "short-body", "short-body-all", "reader-fails", "no-content-length", "te-chunked"},
+	"part": {"none", "md5-correct", "md5-wrong", "md5-badb64", "md5-15bytes", "md5-17bytes", "md5-empty", "short-body", "short-body-all", "truncated-body", "reader-fails", "no-content-length", "te-chunked"},
 	"post": {"none", "key-too-long", "key-1024", "key-long-segment", "no-key", "no-file", "two-files", "truncated-form", "short-body"},
 }
 
@@ -568,6 +580,7 @@ func c08Run(t *testing.T, c *evid.Collector) {
 			}
 			for i := 0; i < n; i++ {
 				all = append(all, c08Case{Backend: k, Prior: "present", Kind: kind, Fault: "reader-fails", Body: small, K: i})
+				all = append(all, c08Case{Backend: k, Prior: "present", Kind: kind, Fault: "truncated-body", Body: small, K: i})
 				if i < len(small.Lit)+3 {
 					all = append(all, c08Case{Backend: k, Prior: "present", Kind: kind, Fault: "short-body", Body: small, K: i})
 				}
@@ -581,7 +594,7 @@ func c08Run(t *testing.T, c *evid.Collector) {
 			if n == 0 {
 				continue
 			}
-			for _, kf := range [][2]string{{"put", "md5-wrong"}, {"put", "short-body"}, {"put", "reader-fails"}, {"put", "none"}, {"chunked", "md5-wrong"}, {"chunked", "short-body"},
+			for _, kf := range [][2]string{{"put", "md5-wrong"}, {"put", "short-body"}, {"put", "reader-fails"}, {"put", "none"}, {"chunked", "md5-wrong"}, {"chunked", "short-body"}, {"chunked", "truncated-body"},
 				{"chunked", "decoded-len-smaller"}, {"chunked", "decoded-len-larger"}, {"part", "md5-wrong"}, {"part", "short-body"}} {
 				all = append(all, c08Case{Backend: k, Prior: "present", Kind: kf[0], Fault: kf[1], Body: bodySpec{N: n, Seed: 11}, K: n - 7})
 			}
@@ -615,7 +628,7 @@ func c08Run(t *testing.T, c *evid.Collector) {
 		one(cs, "enumerated")
 	}
 	c.Set("enumerated_fault_cases", len(all))
-	c.Set("exhaustive_scope", "every fault class x {absent, present, pending upload} x {put, chunked, part, post} x integrity on/off x every backend; reader failure after every k of a 25-byte body (and of its 142-byte aws-chunked framing)")
+	c.Set("exhaustive_scope", "every fault class x {absent, present, pending upload} x {put, chunked, part, post} x integrity on/off x every backend; reader failure after every k, and truncation by every k, of a 25-byte body (and of its aws-chunked framing)")
 	c.Exhaustive(false)
 
 	// ---- random
